@@ -193,8 +193,45 @@ def run_C05(tier, rnd, st, res):
                         if mode in (8, 13):
                             kw['mode'] = MODE_NAME[mode]
                         cases.append(Case(content_for(rnd, mode, n), kw, 'exact-fit'))
+    # ECI header (12 bits) counted in boosting: byte content in a non-default encoding at exact-fit lengths
+    for v in (range(1, 6) if tier == 'quick' else range(1, 41)):
+        for e in levels_of(v):
+            for enc, extra in (('utf-8', 12), ('iso-8859-1', 0), ('shift_jis', 12)):
+                nm = max_chars(v, e, 4, extra)
+                for n in (nm, nm + 1, max(1, nm - 1)):
+                    kw = dict(eci=True, encoding=enc, mode='byte', mask=0, micro=False)
+                    if rnd.random() < 0.5:
+                        kw['error'] = rnd.choice('LMQH')
+                    if rnd.random() < 0.3:
+                        kw['version'] = v
+                    cases.append(Case(''.join(rnd.choice('abcdefghijklmnopqrstuvwxyz') for _ in range(n)), kw, 'eci-exact-fit'))
     cases += list(gen_random(rnd, 400 if tier == 'quick' else 4000))
     cases = sweep(cases, st, res, ['c05'], want_c06=False)
+    # the single-symbol path of make_sequence must honour boost_error / the requested level as well
+    seq_lines, seq_info = [], []
+    for _ in range(60 if tier == 'quick' else 600):
+        v = rnd.choice([1, 2, 3, 5, 9])
+        boost = rnd.random() < 0.5
+        req = rnd.choice([None, 'L', 'M', 'Q', 'H'])
+        mode = rnd.choice([1, 2, 4])
+        content = content_for(rnd, mode, rnd.randint(1, max(1, max_chars(v, 2, mode))))
+        kw = dict(version=v, boost_error=boost, mask=1)
+        if req:
+            kw['error'] = req
+        try:
+            seq = segno.make_sequence(content, **kw)
+        except ValueError:
+            continue
+        res.evaluations += 1
+        if len(seq) == 1:
+            q = seq[0]
+            seq_lines.append(f'sym id={len(seq_lines)} m={matrix_str(q.matrix)} micro=0 reqver={v} reqerr={opt(norm_error(req))} boost={int(boost)}')
+            seq_info.append((content, kw))
+    for o, (content, kw) in zip(run_lines_parallel(JUDGE, seq_lines), seq_info):
+        kv = parse_kv(o)
+        if kv.get('c05') != 'ok':
+            res.violations.append(dict(property_field='c05', verdict=kv.get('c05'), call=f'segno.make_sequence({content!r}, **{kw!r})',
+                                       replay=dict(content=content, kw=kw, api='make_sequence'), judge={k2: kv[k2] for k2 in kv if k2 not in ('cw', 'bytes')}, known_id=None))
     # version invariance under boosting: re-run each boosted call without boosting
     extra = []
     for c in cases:
@@ -290,6 +327,15 @@ def run_C07(tier, rnd, st, res):
         cases.append(Case(bytes([a, b]), {}, 'two-bytes'))
         if tier != 'quick' or rnd.random() < 0.5:
             cases.append(Case(bytes([a, b]), dict(mode=rnd.choice(['numeric', 'alphanumeric', 'byte', 'kanji', 'hanzi'])), 'two-bytes-req'))
+        if a >= 0x80 and (tier != 'quick' or b in (0x40, 0x7f, 0xbf, 0xc0, 0xfc, 0xfd, 0xa1, 0xfe)):
+            cases.append(Case(bytes([a, b]), dict(mode='kanji'), 'two-bytes-kanji'))
+            cases.append(Case(bytes([a, b]), dict(mode='hanzi'), 'two-bytes-hanzi'))
+    # line feed / other control characters next to digits and alphanumerics (regex anchors!)
+    for base in ('1', '12', '123', '1234', 'A', 'AB', 'A1', '0 '):
+        for tail in ('\n', '\r', '\r\n', '\n\n', '\x00', '\x0b', '\x0c', '\x1c', '\x85'):
+            for m in (None, 'numeric', 'alphanumeric'):
+                for c in (base + tail, tail + base):
+                    cases.append(Case(c.encode('latin1') if rnd.random() < 0.5 else c, dict(mode=m) if m else {}, 'control-chars'))
     for _ in range(600 if tier == 'quick' else 6000):
         m = rnd.choice([1, 2, 4, 8, 13])
         c = content_for(rnd, m, rnd.randint(1, 40))
@@ -298,7 +344,22 @@ def run_C07(tier, rnd, st, res):
             kw['mode'] = rnd.choice(['numeric', 'alphanumeric', 'byte', 'kanji', 'hanzi', 'BYTE', 'Kanji'])
         if rnd.random() < 0.3:
             kw['version'] = rnd.choice(['M1', 'M2', 'M3', 'M4', 1, 5])
+        if rnd.random() < 0.4:
+            kw['error'] = rnd.choice(['L', 'M', 'Q', 'H'])
+        if rnd.random() < 0.3:
+            kw['micro'] = rnd.choice([True, False])
         cases.append(Case(c, kw, 'stratified'))
+    # every mode with every level and micro flag on short contents (mode / version-class interplay)
+    for m in (1, 2, 4, 8, 13):
+        for e in (None, 'L', 'M', 'Q', 'H'):
+            for micro in (None, True, False):
+                for n in (1, 2, 8):
+                    kw = dict(mode=MODE_NAME[m])
+                    if e:
+                        kw['error'] = e
+                    if micro is not None:
+                        kw['micro'] = micro
+                    cases.append(Case(content_for(rnd, m, n), kw, 'mode-level-micro'))
     for t in TEXTS:
         for m in (None, 'byte', 'kanji', 'hanzi', 'alphanumeric'):
             cases.append(Case(t, dict(mode=m) if m else {}, 'texts'))
